@@ -1,6 +1,7 @@
 #!/bin/bash
 # usage: seed_confirm.sh <seed-id> <worktree>   — confirm a seeded change (demo fails with it, passes without, suite passes) and file it under /verif/seeded/<id>/
 set -u
+DEMO_FEATURES=${DEMO_FEATURES:-}
 ID=$1; WT=$2; OUT=/verif/seeded/$ID
 mkdir -p $OUT
 cd $WT || exit 2
@@ -8,10 +9,10 @@ export CARGO_TARGET_DIR=$WT/target CARGO_NET_OFFLINE=true
 git diff -- src > $OUT/patch.diff
 cp examples/mutant_demo.rs $OUT/demo.rs 2>/dev/null
 cp _mutant/notes.txt $OUT/notes.txt 2>/dev/null
-cargo run --offline --example mutant_demo > $OUT/demo_with.log 2>&1; RC_WITH=$?
-git stash push -q -- src
-cargo run --offline --example mutant_demo > $OUT/demo_without.log 2>&1; RC_WITHOUT=$?
-git stash pop -q
+cargo run --offline $DEMO_FEATURES --example mutant_demo > $OUT/demo_with.log 2>&1; RC_WITH=$?
+git apply -R $OUT/patch.diff || exit 3   # (not git stash: the stash is shared by all worktrees)
+cargo run --offline $DEMO_FEATURES --example mutant_demo > $OUT/demo_without.log 2>&1; RC_WITHOUT=$?
+git apply $OUT/patch.diff || exit 3
 cargo test --offline > $OUT/suite_with.log 2>&1; RC_SUITE=$?
 PASSED=$(grep -c '\.\.\. ok' $OUT/suite_with.log)
 echo "{\"demo_rc_with_change\": $RC_WITH, \"demo_rc_without_change\": $RC_WITHOUT, \"suite_rc_with_change\": $RC_SUITE, \"suite_tests_ok\": $PASSED}" > $OUT/confirm.json
